@@ -7,4 +7,15 @@ pub fn new() -> Shape {
   Shape(4, "sq")
 }
 
+pub fn round(n: String) -> Shape {
+  Round(name: n)
+}
+
+pub fn rename(s: Shape, n: String) -> Shape {
+  case s {
+    Shape(name: _, sides: k) -> Shape(name: n, sides: k)
+    Round(name: old) -> Round(..s, name: old <> n)
+  }
+}
+
 pub const default_sides = 4
